@@ -36,13 +36,19 @@ fn corpus_item(rng: &mut Rng, i: usize) -> (String, String, Vec<u8>, bool) {
                 names.swap(j, x);
             }
             // directly, or through a macro (every use of the macro records the same position inside its expansion)
-            let via_macro = rng.chance(1, 2);
+            // every third such program: behind hundreds / thousands of forward references to a label that IS defined
+            // later, the first two undefined labels coming out of one macro use (equal positions)
+            let many = if (i / 8) % 3 == 0 { *rng.pick(&[257usize, 300, 1000, 4097, 5000]) } else { 0 };
+            let via_macro = many > 0 || rng.chance(1, 2);
+            for _ in 0..many {
+                t.push_str("jmp later_on\n");
+            }
             if via_macro {
                 t = format!("macro br(tgt) -> {} tgt <-\nmacro br2(a,b) -> br(a) br(b) <-\n{}", rng.pick(&["jmp", "je", "loop"]), t);
             }
             for (j, n) in names.iter().enumerate() {
                 if via_macro {
-                    if j + 1 < names.len() && rng.chance(1, 3) {
+                    if j + 1 < names.len() && ((many > 0 && j == 0) || rng.chance(1, 3)) {
                         t.push_str(&format!("br2({},{})\n", n, names[j + 1]));
                     } else {
                         t.push_str(&format!("br({})\nmov bx,2\n", n));
@@ -51,7 +57,10 @@ fn corpus_item(rng: &mut Rng, i: usize) -> (String, String, Vec<u8>, bool) {
                     t.push_str(&format!("{} {}\nmov bx,2\n", rng.pick(&["jmp", "je", "loop", "jnz", "jcxz"]), n));
                 }
             }
-            (format!("undefined-labels-{}{}", k.min(4), if via_macro { "-via-macro" } else { "" }), t, vec![], false)
+            if many > 0 {
+                t.push_str("later_on:\nmov cx,3\n");
+            }
+            (format!("undefined-labels-{}{}{}", k.min(4), if via_macro { "-via-macro" } else { "" }, if many > 0 { "-among-many-forward-references" } else { "" }), t, vec![], false)
         }
         3 => {
             // undefined labels and no start, or undefined + duplicate definitions
